@@ -127,3 +127,328 @@ Proof.
     repeat split; try lia.
   - inversion H1; subst. repeat split; try lia.
 Qed.
+
+(** * Round trip: parsing an encoded header *)
+Definition digits (l : bytes) : Prop := Forall (fun c => is_digit c = true) l.
+
+Lemma fmt_aux_S f n acc :
+  fmt_aux (S f) n acc =
+  if n <? 10 then (48 + n mod 10) :: acc else fmt_aux f (n / 10) ((48 + n mod 10) :: acc).
+Proof. reflexivity. Qed.
+
+Lemma fmt_aux_spec f : forall n acc,
+  n < 2 ^ N.of_nat f -> digits acc ->
+  digits (fmt_aux (S f) n acc) /\ fmt_aux (S f) n acc <> [] /\
+  dec_val 0 (fmt_aux (S f) n acc) = dec_val n acc.
+Proof.
+  induction f as [|f IH]; intros n acc Hn Hacc.
+  - change (2 ^ N.of_nat 0) with 1 in Hn. assert (n = 0) by lia. subst. cbn.
+    repeat split; [constructor; [reflexivity|exact Hacc] | discriminate].
+  - rewrite fmt_aux_S. destruct (N.ltb_spec n 10) as [H10|H10].
+    + assert (Hm : n mod 10 = n) by (apply N.mod_small; lia). rewrite Hm.
+      repeat split.
+      * constructor; [unfold is_digit; lia | exact Hacc].
+      * discriminate.
+      * unfold dec_val. cbn [fold_left]. f_equal. lia.
+    + assert (Hd : n / 10 < 2 ^ N.of_nat f).
+      { assert (n / 10 <= n / 2) by (apply N.div_le_compat_l; lia).
+        assert (n / 2 < 2 ^ N.of_nat f).
+        { apply N.div_lt_upper_bound; [lia|].
+          replace (N.of_nat (S f)) with (N.succ (N.of_nat f)) in Hn by lia.
+          rewrite N.pow_succ_r' in Hn. lia. }
+        lia. }
+      assert (Hm : n mod 10 < 10) by (apply N.mod_lt; lia).
+      destruct (IH (n / 10) ((48 + n mod 10) :: acc) Hd) as (A & B & C).
+      { constructor; [unfold is_digit; lia | exact Hacc]. }
+      repeat split; [exact A | exact B |].
+      rewrite C. unfold dec_val. cbn [fold_left]. f_equal.
+      pose proof (N.div_mod n 10 ltac:(lia)). lia.
+Qed.
+
+Lemma fmt_uint_spec n :
+  digits (fmt_uint n) /\ fmt_uint n <> [] /\ dec_val 0 (fmt_uint n) = n.
+Proof.
+  unfold fmt_uint.
+  destruct (fmt_aux_spec (N.to_nat (N.log2 n + 1)) n []) as (A & B & C); [|constructor|auto].
+  rewrite N2Nat.id. destruct n as [|p]; [cbn; lia|].
+  pose proof (N.log2_spec (N.pos p) ltac:(lia)) as [_ H].
+  replace (N.log2 (N.pos p) + 1) with (N.succ (N.log2 (N.pos p))) by lia. exact H.
+Qed.
+
+Lemma digits_forallb l : digits l -> forallb is_digit l = true.
+Proof. induction 1; simpl; [reflexivity|]. now rewrite H, IHForall. Qed.
+
+Lemma parse_uint_fmt n : n < two64 -> parse_uint_go (fmt_uint n) = Some n.
+Proof.
+  intros Hn. destruct (fmt_uint_spec n) as (A & B & C).
+  unfold parse_uint_go. destruct (fmt_uint n) as [|c l] eqn:E; [congruence|].
+  rewrite (digits_forallb _ A), C.
+  destruct (N.ltb_spec n two64); [reflexivity|lia].
+Qed.
+
+Lemma index_byte_digits d c rest :
+  digits d -> is_digit c = false -> index_byte c (d ++ c :: rest) = Some (length d).
+Proof.
+  intros Hd Hc. induction Hd as [|x d Hx Hd IH]; simpl.
+  - now rewrite N.eqb_refl.
+  - destruct (N.eqb_spec x c); [congruence|]. now rewrite IH.
+Qed.
+
+Lemma scan_until_stop stop l x rest :
+  Forall (fun c => stop c = false) l -> stop x = true ->
+  scan_until stop (l ++ x :: rest) = length l.
+Proof.
+  intros Hl Hx. induction Hl as [|y l Hy Hl IH]; simpl; [now rewrite Hx|]. now rewrite Hy, IH.
+Qed.
+
+Lemma scan_until_end stop l :
+  Forall (fun c => stop c = false) l -> scan_until stop l = length l.
+Proof. induction 1 as [|y l Hy Hl IH]; simpl; [reflexivity|]. now rewrite Hy, IH. Qed.
+
+Definition starts_nondigit (p : bytes) : Prop :=
+  match p with [] => True | c :: _ => is_digit c = false end.
+
+Lemma scan_digits d p :
+  digits d -> starts_nondigit p ->
+  scan_until (fun x => negb (is_digit x)) (d ++ p) = length d.
+Proof.
+  intros Hd Hp.
+  assert (Hf : Forall (fun c => negb (is_digit c) = false) d).
+  { eapply Forall_impl; [|exact Hd]. intros a Ha; simpl in Ha. now rewrite Ha. }
+  destruct p as [|c p].
+  - rewrite app_nil_r. now apply scan_until_end.
+  - apply scan_until_stop; [exact Hf|]. simpl in Hp. now rewrite Hp.
+Qed.
+
+Lemma firstn_app_exact {A} (l r : list A) : firstn (length l) (l ++ r) = l.
+Proof. rewrite firstn_app, Nat.sub_diag, firstn_all. simpl. apply app_nil_r. Qed.
+
+Lemma skipn_app_exact {A} (l r : list A) : skipn (length l) (l ++ r) = r.
+Proof. rewrite skipn_app, Nat.sub_diag, skipn_all. reflexivity. Qed.
+
+(** The id stage on [id_part ++ p]. *)
+Definition id_stage (puint : bytes -> option N) (data3 : bytes) : res (option N * bytes) :=
+  match data3 with
+  | c3 :: _ =>
+    if is_digit c3 then
+      let i := scan_until (fun x => negb (is_digit x)) data3 in
+      rbind (slice_to data3 i) (fun s =>
+        match puint s with
+        | None => Err
+        | Some n => rbind (slice_from data3 i) (fun d => Ok (Some n, d))
+        end)
+    else Ok (None, data3)
+  | [] => Ok (None, data3)
+  end.
+
+Definition id_part (id : option N) : bytes :=
+  match id with Some n => fmt_uint n | None => [] end.
+
+Lemma id_stage_encoded id p :
+  match id with Some n => n < two64 | None => True end -> starts_nondigit p ->
+  id_stage parse_uint_go (id_part id ++ p) = Ok (id, p).
+Proof.
+  intros Hid Hp. unfold id_part. destruct id as [n|]; cbn [app].
+  - destruct (fmt_uint_spec n) as (A & B & C).
+    unfold id_stage. destruct (fmt_uint n) as [|c d] eqn:E; [congruence|].
+    cbn [app]. pose proof (Forall_inv A) as Hc. cbv beta in Hc. rewrite Hc.
+    change (c :: d ++ p) with ((c :: d) ++ p).
+    rewrite (scan_digits (c :: d) p A Hp).
+    rewrite slice_to_le by (rewrite app_length; lia). rewrite firstn_app_exact. cbn [rbind].
+    rewrite <- E, (parse_uint_fmt n Hid), E.
+    rewrite slice_from_le by (rewrite app_length; lia). rewrite skipn_app_exact. reflexivity.
+  - unfold id_stage. destruct p as [|c p]; [reflexivity|]. simpl in Hp. now rewrite Hp.
+Qed.
+
+(** The namespace stage on [nsp_part ++ rest]. *)
+Definition nsp_stage (data2 : bytes) : res (bytes * bytes) :=
+  match data2 with
+  | c2 :: _ =>
+    if c2 =? 47 then
+      let i := scan_until (N.eqb 44) data2 in
+      if (i =? length data2)%nat then Err else
+      rbind (slice_to data2 i) (fun nsp =>
+      rbind (slice_from data2 (i + 1)) (fun d => Ok (nsp, d)))
+    else Ok ([47], data2)
+  | [] => Ok ([47], data2)
+  end.
+
+Definition nsp_part (nsp : bytes) : bytes :=
+  match nsp with
+  | [] => []
+  | [c] => if c =? 47 then [] else [c; 44]
+  | nsp => nsp ++ [44]
+  end.
+
+Definition starts_not_slash (p : bytes) : Prop :=
+  match p with [] => True | c :: _ => c <> 47 end.
+
+Lemma nsp_stage_encoded r rest :
+  ~ In 44 r -> starts_not_slash rest ->
+  nsp_stage (nsp_part (47 :: r) ++ rest) = Ok (47 :: r, rest).
+Proof.
+  intros Hr Hrest. destruct r as [|x r].
+  - cbn. unfold nsp_stage. destruct rest as [|c rest]; [reflexivity|].
+    simpl in Hrest. destruct (N.eqb_spec c 47); [contradiction|reflexivity].
+  - change (nsp_part (47 :: x :: r)) with ((47 :: x :: r) ++ [44]).
+    assert (Hl : Forall (fun c => 44 =? c = false) (47 :: x :: r)).
+    { constructor; [reflexivity|]. apply Forall_forall. intros y Hy.
+      destruct (N.eqb_spec 44 y); [subst; contradiction|reflexivity]. }
+    assert (Hh : exists t, 47 :: x :: r = 47 :: t) by eauto.
+    remember (47 :: x :: r) as l eqn:El. clear El Hr x r.
+    rewrite <- app_assoc. cbn [app]. unfold nsp_stage.
+    destruct Hh as [t ->]. cbn [app]. replace (47 =? 47) with true by reflexivity. cbv zeta.
+    change (47 :: t ++ 44 :: rest) with ((47 :: t) ++ 44 :: rest).
+    remember (47 :: t) as l eqn:El. clear El t.
+    rewrite (scan_until_stop (N.eqb 44) l 44 rest Hl eq_refl).
+    destruct (Nat.eqb_spec (length l) (length (l ++ 44 :: rest))) as [E|E].
+    { rewrite app_length in E. simpl in E. lia. }
+    rewrite slice_to_le by (rewrite app_length; simpl; lia). rewrite firstn_app_exact. cbn [rbind].
+    rewrite slice_from_le by (rewrite app_length; simpl; lia).
+    replace (length l + 1)%nat with (length (l ++ [44])) by (rewrite app_length; reflexivity).
+    replace (l ++ 44 :: rest) with ((l ++ [44]) ++ rest) by (rewrite <- app_assoc; reflexivity).
+    rewrite skipn_app_exact. reflexivity.
+Qed.
+
+(** The attachment-count stage. *)
+Definition att_stage (puint : bytes -> option N) (ty : N) (data1 : bytes) : res (Z * bytes) :=
+  if is_binary ty then
+    match index_byte 45 data1 with
+    | None => Err
+    | Some i =>
+      rbind (slice_to data1 i) (fun s =>
+        match puint s with
+        | None => Err
+        | Some a =>
+          let att := uint64_to_int a in
+          if (att <? 0)%Z then Err else
+          rbind (if (i + 1 <? length data1)%nat
+                 then slice_from data1 (i + 1) else slice_from data1 i)
+                (fun d => Ok (att, d))
+        end)
+    end
+  else Ok (0%Z, data1).
+
+Lemma parse_prefix_stages puint c data1 :
+  parse_prefix_with puint (c :: data1) =
+  if (c <? 48) || (54 <? c) then Err else
+  rbind (att_stage puint (c - 48) data1) (fun '(att, data2) =>
+  rbind (nsp_stage data2) (fun '(nsp, data3) =>
+  rbind (id_stage puint data3) (fun '(id, data4) =>
+  Ok (mkHeader (c - 48) nsp id att, data4)))).
+Proof. reflexivity. Qed.
+
+Lemma att_stage_encoded t att rest :
+  is_binary t = true -> (0 <= att < Z.of_N two63)%Z -> rest <> [] ->
+  att_stage parse_uint_go t (fmt_int att ++ [45] ++ rest) = Ok (att, rest).
+Proof.
+  intros Hb Ha Hrest. unfold att_stage. rewrite Hb.
+  unfold fmt_int. destruct (Z.ltb_spec att 0); [lia|].
+  destruct (fmt_uint_spec (Z.to_N att)) as (A & B & C).
+  cbn [app]. rewrite (index_byte_digits _ 45 rest A eq_refl).
+  rewrite slice_to_le by (rewrite app_length; lia). rewrite firstn_app_exact. cbn [rbind].
+  rewrite parse_uint_fmt by (unfold two64, two63 in *; lia).
+  assert (Hu : uint64_to_int (Z.to_N att) = att).
+  { unfold uint64_to_int. rewrite N.mod_small by (unfold two64, two63 in *; lia).
+    destruct (N.ltb_spec (Z.to_N att) two63); lia. }
+  cbv zeta. rewrite Hu. destruct (Z.ltb_spec att 0); [lia|].
+  destruct rest as [|x rest]; [congruence|].
+  destruct (Nat.ltb_spec (length (fmt_uint (Z.to_N att)) + 1)
+                         (length (fmt_uint (Z.to_N att) ++ 45 :: x :: rest))) as [L|L].
+  2:{ rewrite app_length in L. simpl in L. lia. }
+  rewrite slice_from_le by (rewrite app_length; simpl; lia).
+  replace (length (fmt_uint (Z.to_N att)) + 1)%nat with (length (fmt_uint (Z.to_N att) ++ [45]))
+    by (rewrite app_length; reflexivity).
+  replace (fmt_uint (Z.to_N att) ++ 45 :: x :: rest) with ((fmt_uint (Z.to_N att) ++ [45]) ++ x :: rest)
+    by (rewrite <- app_assoc; reflexivity).
+  rewrite skipn_app_exact. reflexivity.
+Qed.
+
+Lemma fmt_uint_head n : exists c d, fmt_uint n = c :: d /\ is_digit c = true.
+Proof.
+  destruct (fmt_uint_spec n) as (A & B & _).
+  destruct (fmt_uint n) as [|c d]; [congruence|]. exists c, d. split; [reflexivity|].
+  exact (Forall_inv A).
+Qed.
+
+Lemma encode_header_eq h :
+  encode_header h =
+  [48 + h_type h] ++ (if is_binary (h_type h) then fmt_int (h_att h) ++ [45] else [])
+  ++ nsp_part (h_nsp h) ++ id_part (h_id h).
+Proof. destruct h as [t [|c [|c2 l]] id att]; reflexivity. Qed.
+
+(** [parse_encode_header]: for every header the encoder can write (type 0..6, namespace starting
+    with a slash and free of commas, id below 2^64 or absent, attachment count in [0,2^63) for the
+    binary types) followed by a payload that is empty or starts with one of [ { and the double
+    quote, parsing gives back the header and the payload. *)
+Theorem parse_encode_header h p :
+  header_ok h -> payload_ok h p -> parse_prefix (encode_header h ++ p) = Ok (h, p).
+Proof.
+  destruct h as [t nsp id att]. unfold header_ok, payload_ok. cbn [h_type h_nsp h_id h_att].
+  intros (Ht & (r & -> & Hr) & Hid & Hatt) (Hp & Hcorner).
+  assert (Hpd : starts_nondigit p).
+  { destruct p as [|c p]; [exact I|]. simpl. destruct Hp as [->|[->| ->]]; reflexivity. }
+  assert (Hps : starts_not_slash p).
+  { destruct p as [|c p]; [exact I|]. simpl. destruct Hp as [->|[->| ->]]; discriminate. }
+  rewrite encode_header_eq. cbn [h_type h_nsp h_id h_att].
+  remember (id_part id) as idp eqn:Eidp.
+  remember (nsp_part (47 :: r)) as np eqn:Enp.
+  (* what follows the namespace part does not start with a slash *)
+  assert (Hrest : starts_not_slash (idp ++ p)).
+  { subst idp. unfold id_part. destruct id as [n|]; [|exact Hps].
+    destruct (fmt_uint_head n) as (c & d & -> & Hc). simpl. unfold is_digit in Hc. lia. }
+  destruct (is_binary t) eqn:Eb.
+  - assert (Hne : np ++ idp ++ p <> []).
+    { subst np. destruct r as [|x r]; [|discriminate].
+      destruct id as [n|].
+      - subst idp. unfold id_part. destruct (fmt_uint_head n) as (c & d & -> & _). discriminate.
+      - subst idp. cbn. apply Hcorner; reflexivity. }
+    replace (([48 + t] ++ (fmt_int att ++ [45]) ++ np ++ idp) ++ p)
+      with ((48 + t) :: (fmt_int att ++ [45] ++ (np ++ idp ++ p)))
+      by (cbn [app]; rewrite <- !app_assoc; reflexivity).
+    unfold parse_prefix. rewrite parse_prefix_stages.
+    replace (48 + t - 48) with t by lia.
+    destruct ((48 + t <? 48) || (54 <? 48 + t)) eqn:Ec; [lia|]. clear Ec.
+    rewrite (att_stage_encoded t att _ Eb Hatt Hne). cbn [rbind].
+    subst np. rewrite (nsp_stage_encoded r _ Hr Hrest). cbn [rbind].
+    subst idp. rewrite (id_stage_encoded id p Hid Hpd). reflexivity.
+  - replace (([48 + t] ++ [] ++ np ++ idp) ++ p) with ((48 + t) :: (np ++ idp ++ p))
+      by (cbn [app]; rewrite <- !app_assoc; reflexivity).
+    unfold parse_prefix. rewrite parse_prefix_stages.
+    replace (48 + t - 48) with t by lia.
+    destruct ((48 + t <? 48) || (54 <? 48 + t)) eqn:Ec; [lia|]. clear Ec.
+    unfold att_stage. rewrite Eb. cbn [rbind].
+    subst np. rewrite (nsp_stage_encoded r _ Hr Hrest). cbn [rbind].
+    subst idp. rewrite (id_stage_encoded id p Hid Hpd). subst att. reflexivity.
+Qed.
+
+(** The same for the whole of parseHeader: a non-event packet needs no JSON library at all; for
+    an event packet what remains is the pre-scan of the payload. *)
+Corollary parse_encode_header_full unm h p :
+  header_ok h -> payload_ok h p ->
+  parse_header unm (encode_header h ++ p) =
+  if is_event (h_type h) then
+    rbind (prescan p) (fun tmp =>
+      match unm tmp with
+      | Some [name] => Ok (h, p, name)
+      | _ => Err
+      end)
+  else Ok (h, p, []).
+Proof.
+  intros H1 H2. unfold parse_header, parse_header_with.
+  change (parse_prefix_with parse_uint_go) with parse_prefix.
+  rewrite (parse_encode_header h p H1 H2). cbn [rbind].
+  destruct (is_event (h_type h)); [|reflexivity].
+  destruct (prescan p); cbn [rbind]; reflexivity.
+Qed.
+
+(** Distinct namespaces give distinct wire headers (used by C05). *)
+Corollary encode_header_injective h1 h2 p1 p2 :
+  header_ok h1 -> payload_ok h1 p1 -> header_ok h2 -> payload_ok h2 p2 ->
+  encode_header h1 ++ p1 = encode_header h2 ++ p2 -> h1 = h2 /\ p1 = p2.
+Proof.
+  intros A1 B1 A2 B2 E.
+  pose proof (parse_encode_header h1 p1 A1 B1) as P1.
+  pose proof (parse_encode_header h2 p2 A2 B2) as P2.
+  rewrite E in P1. rewrite P1 in P2. inversion P2. auto.
+Qed.
